@@ -620,7 +620,7 @@ fn gen_c11(rng: &mut Rng, thorough: bool) -> Cases {
         let e = g.expr(rng, depth);
         let path = if envs[env].binds.is_empty() && rng.chance(1, 2) { "f" } else { "e" };
         cases.push(Case { env, kind: Kind::Ev { path, e: e.clone() } });
-        if rng.chance(1, 10) && vpl(&e).is_some() { cases.push(Case { env, kind: Kind::Probe { path: "t", e } }); }
+        if rng.chance(1, if thorough { 10 } else { 25 }) && vpl(&e).is_some() { cases.push(Case { env, kind: Kind::Probe { path: "t", e } }); }
     }
     Cases { envs, cases }
 }
@@ -656,9 +656,10 @@ fn gen_c10(rng: &mut Rng, thorough: bool) -> Cases {
     list.push(Expr::Call { func: bx(bin(BinOp::Mul, id("abs"), Expr::Int(1))), args: vec![Arg::Positional(Expr::Int(-3))] });
     list.push(Expr::Member { expr: bx(bin(BinOp::Add, id("E"), Expr::Int(0))), member: "x".into() });
     list.push(bin(BinOp::Mul, bin(BinOp::Add, Expr::Int(1), Expr::Int(-1)), id("y")));
-    for e in &list {
+    for (i, e) in list.iter().enumerate() {
         cases.push(Case { env: 0, kind: Kind::C10 { e: e.clone() } });
-        if vpl(e).is_some() { cases.push(Case { env: 0, kind: Kind::C10T { e: e.clone() } }); }
+        // the text path builds one Engine per program: every 5th entry in the quick tier
+        if (thorough || i % 5 == 0) && vpl(e).is_some() { cases.push(Case { env: 0, kind: Kind::C10T { e: e.clone() } }); }
     }
     // random trees, arithmetic-heavy, literals biased to 0/1/extremes
     let n_rand = if thorough { 60000 } else { 5000 };
@@ -670,7 +671,7 @@ fn gen_c10(rng: &mut Rng, thorough: bool) -> Cases {
         let depth = 1 + rng.below(if thorough { 4 } else { 3 }) as u32;
         let e = if rng.chance(3, 4) { g.expr(rng, depth) } else { g2.expr(rng, depth) };
         cases.push(Case { env, kind: Kind::C10 { e: e.clone() } });
-        if rng.chance(1, 6) && vpl(&e).is_some() { cases.push(Case { env, kind: Kind::C10T { e } }); }
+        if rng.chance(1, if thorough { 6 } else { 15 }) && vpl(&e).is_some() { cases.push(Case { env, kind: Kind::C10T { e } }); }
     }
     Cases { envs, cases }
 }
